@@ -91,6 +91,18 @@ def main():
     U.save_json = save_json
     bs.save_json = save_json
     base.save_json = save_json
+    if ev['kind'] == 'kill_fs':
+        # the process dies right BEFORE its at-th file-system mutation (remove / unlink / rename / replace), whoever issues it
+        cnt = {'n': 0}
+        for fn in ('remove', 'unlink', 'rename', 'replace'):
+            real = getattr(os, fn)
+
+            def wrapped(*x, _real=real, **k):
+                cnt['n'] += 1
+                if cnt['n'] == ev['at']:
+                    os._exit(9)
+                return _real(*x, **k)
+            setattr(os, fn, wrapped)
 
     spec = {'ranges': {'label': 'c12', 'code': {'name': 'Toric2DCode', 'parameters': [{'L_x': s, 'L_y': s} for s in a['sizes']]},
                        'error_model': {'name': 'PauliErrorModel', 'parameters': {'r_x': 0.25, 'r_y': 0.25, 'r_z': 0.5}},
